@@ -454,6 +454,17 @@ def check(ctx):
     ctx.ob("C08.R5", build, "tracked keys = kernel keys + positions_included, minus "
                             "positions_excluded", ok, detail=short(pk or ()),
            stmt="tracked keys " + pretty(pk or ())[:160])
+    ebi = method(repo, repo.cls("liesel.goose.builder.EngineBuilder"), "__init__")
+    rebi = evaluate(repo, ebi)
+    lists_ = {loc[2]: val for loc, val, _, cond in rebi.stores
+              if loc[0] == "a" and loc[1] == SELF and loc[2] in ("positions_included",
+                                                                  "positions_excluded")}
+    fresh_ = lambda v: v is not None and ((v[0] == "list" and v[1] == ()) or is_call(v, "list"))  # noqa: E731
+    ctx.ob("C08.R5", ebi, "every EngineBuilder starts with its own empty include / exclude "
+                          "lists (users are told to extend them in place: a shared default "
+                          "object would leak keys between builders)",
+           fresh_(lists_.get("positions_included")) and fresh_(lists_.get("positions_excluded")),
+           detail=str({k: short(v, 40) for k, v in lists_.items()}), stmt="builder key lists")
     fb = [(val, cond) for loc, val, _, cond in rei.stores if loc == ("a", SELF, "_position_keys")]
     ok = False
     detail = ""
